@@ -62,6 +62,9 @@ class Function:
                     if ins.op == 'icmp' and len(ins.ops) == 2 and ins.ops[0][0] in ('c', 'cbig', 'n') and ins.ops[1][0] not in ('c', 'cbig', 'n'):
                         ins.ops = [ins.ops[1], ins.ops[0]]
                         ins.pred = {'ult': 'ugt', 'ugt': 'ult', 'ule': 'uge', 'uge': 'ule', 'slt': 'sgt', 'sgt': 'slt', 'sle': 'sge', 'sge': 'sle'}.get(ins.pred, ins.pred)
+                    # commutative operators: a constant operand goes to the right (`1 + i` is `i + 1` for every rule)
+                    if ins.op in ('add', 'mul', 'and', 'or', 'xor') and len(ins.ops) == 2 and ins.ops[0][0] in ('c', 'cbig', 'n') and ins.ops[1][0] not in ('c', 'cbig', 'n'):
+                        ins.ops = [ins.ops[1], ins.ops[0]]
                     lst.append(ins)
                     self.insts[ins.id] = ins
                 self.blocks.append(lst)
